@@ -1657,9 +1657,28 @@ public:
       return;
     }
     dom_var_t vx = domvar_of_term(it->second);
+    // The ghost variable of a term that is not bound to any program
+    // variable (e.g., t in x -> t+1 after t's variable was forgotten)
+    // is existentially quantified. The copy of x cannot be related to
+    // it: otherwise, x == t+1 and y == t+1 would imply x == y. Thus,
+    // the expansion is done after forgetting those ghost variables.
+    std::vector<dom_var_t> hidden;
+    for (auto const &p : _term_map) {
+      if (_rev_var_map.find(p.first) == _rev_var_map.end() &&
+          _ttbl.get_term_ptr(p.first)->kind() != term::TERM_CONST) {
+        hidden.push_back(p.second);
+      }
+    }
     term_id_t ty = _ttbl.fresh_var();
     dom_var_t vy = domvar_of_term(ty);
-    _impl.expand(vx, vy);
+    if (hidden.empty()) {
+      _impl.expand(vx, vy);
+    } else {
+      dom_t tmp(_impl);
+      tmp.forget(hidden);
+      tmp.expand(vx, vy);
+      _impl = _impl & tmp;
+    }
     rebind_var(y, ty);
 
     check_terms(__LINE__);
